@@ -2,6 +2,7 @@
   Hg.Props.C08 — scaling by a factor equals refilling with every weight multiplied by it.
 -/
 import Hg.Proofs.FillLaws
+import Hg.Proofs.ScalePartition
 import Hg.Props.Examples
 
 namespace Hg.C08
@@ -45,6 +46,31 @@ theorem scale_fill (t : Agg) (d : Datum) (w f : Val) (hg : good t = true) (hw : 
     (hg' : good (fill t d w).1 = true) (hok : (fill t d w).2 = .ok) (hf : f.posFin) :
     fill (scale t f) d (f * w) = (scale (fill t d w).1 f, .ok) :=
   Hg.scale_fill t d w f hg hw hg' hok hf
+
+/-- any further good run of fills commutes with the scaling (every good state, not only the empty tree) -/
+theorem scale_fillAll (t : Agg) (s : List (Datum × Val)) (f : Val) (hrun : goodRun t s = true) (hf : f.posFin) :
+    scale (fillAll t s) f = fillAll (scale t f) (s.map (fun dw => (dw.1, f * dw.2))) :=
+  Hg.ScF.scale_fillAll hf s t hrun
+
+/-- the stream with every weight multiplied by `f` is again a good run from the empty tree: no fill of it raises,
+every intermediate state is good — so every theorem that asks for a good run applies to the refilled side too -/
+theorem goodRun_scaled (z : Agg) (s : List (Datum × Val)) (f : Val) (hz : isZeroTree z = true)
+    (hrun : goodRun z s = true) (hf : f.posFin) :
+    goodRun z (s.map (fun dw => (dw.1, f * dw.2))) = true :=
+  Hg.goodRun_scaled z s f hz hrun hf
+
+/-- **scaling commutes with distributed aggregation** (with C01): multiplying every partial result by `f` and
+combining the products in any order and grouping equals the whole-dataset aggregate multiplied by `f`. -/
+theorem scale_partition (z : Agg) (chunks : List (List (Datum × Val))) (σ : Sched) (f : Val)
+    (hz : isZeroTree z = true) (ht : hasTmpl z = true) (hn : noBins z = true)
+    (hruns : ∀ c ∈ chunks, goodRun z c = true) (hrun : goodRun z chunks.flatten = true)
+    (hσ : σ.leaves.Perm (List.range chunks.length)) (hf : f.posFin) :
+    reduce ((chunks.map (fillAll z)).map (fun p => mul p f)) σ = some (mul (fillAll z chunks.flatten) f) :=
+  Hg.scale_partition z chunks σ f hz ht hn hruns hrun hσ hf
+
+open Hg.Ex in
+#guard decide (reduce (([s1, s2].map (fillAll z)).map (fun p => mul p (.fin (1/2)))) (.node (.leaf 1) (.leaf 0))
+  = some (mul (fillAll z (s1 ++ s2)) (.fin (1/2))))
 
 open Hg.Ex in
 #guard goodRun z s1 && decide (mul (fillAll z s1) (.fin (1/2)) = fillAll z (s1.map (fun dw => (dw.1, Val.fin (1/2) * dw.2))))
